@@ -168,6 +168,8 @@ class History:
             'bbb_a1_enc.mp4': (fb / 'bbb_a1_enc.mp4').read_bytes(),
             'notmp4.mp4': b'this is not an mp4 file' * 40,
             'truncated.mp4': (fb / 'bbb_t1.mp4').read_bytes()[:2000],
+            # names of the form an edit of a media file generates for its new blob (<name>_01.mp4)
+            'bbb_t1_01.mp4': (fb / 'bbb_t1.mp4').read_bytes(), 'bbb_v7_01.mp4': (fb / 'bbb_v7.mp4').read_bytes(),
         }
         self.obs.snapshot('empty')
         self.uploaded: dict[tuple[str, str], bytes] = {}      # (directory, media name) -> bytes as uploaded
@@ -305,7 +307,16 @@ class History:
         if kind == 'add-stream':
             d = rng.choice(['alpha', 'beta', 'gamma', 'delta', 'alpha', f's{tag}'])
             if rng.random() < 0.5:
-                return G.op_add_stream(d, f'Stream {d} {tag}')
+                op = G.op_add_stream(d, f'Stream {d} {tag}')
+                if rng.random() < 0.2:
+                    # more members than the form sends: names of other columns of the stream table
+                    extra = rng.choice([
+                        {'timing_ref': {'media_name': 'ghost', 'media_duration': 9600, 'num_media_segments': 10,
+                                        'segment_duration': 960, 'timescale': 240}},
+                        {'pk': rng.choice(streams)['pk'] if streams else 1},
+                        {'defaults': {'depth': 77}}])
+                    op = dict(op, fields={**op['fields'], **extra})
+                return op
             return G.op_add_stream_form(d, f'Stream {d} {tag}')
         if kind == 'upload':
             s = some_stream()
